@@ -325,12 +325,6 @@ func (e *Exec) appendOp(st *State, a0, a1 Val, c *ssa.CallCommon, where string) 
 	default:
 		e.badVal(a1, "append source at "+where)
 	}
-	dn, ok := dst.Len.ConstInt()
-	if !ok {
-		e.unsupported(st, "append to symbolic-length slice at "+where)
-		return &Poison{Why: "append"}
-	}
-	n := int(dn)
 	et := dst.Elem
 	if et == nil {
 		et = c.Args[0].Type().Underlying().(*types.Slice).Elem()
@@ -338,6 +332,42 @@ func (e *Exec) appendOp(st *State, a0, a1 Val, c *ssa.CallCommon, where string) 
 	if len(add) == 0 {
 		return dst
 	}
+	dn, ok := dst.Len.ConstInt()
+	if !ok {
+		// symbolic length (a slice that was appended to under a condition): the result is a fresh array;
+		// position j holds the old element when j < len, the (j-len)-th new element after that
+		if dst.OffT != nil || dst.Off != 0 || len(dst.Path) != 0 || dst.Obj == 0 {
+			e.unsupported(st, "append to symbolic-length slice (offset/nil) at "+where)
+			return &Poison{Why: "append"}
+		}
+		lo, hi := e.idxRange(dst.Len, dst.Cap+1)
+		ncap := hi + len(add)
+		elems := make([]Val, ncap)
+		for j := 0; j < ncap; j++ {
+			var v Val
+			for L := hi; L >= lo; L-- {
+				var cand Val
+				switch {
+				case j < L:
+					cand = e.load(st, &Ptr{Obj: dst.Obj, Path: []Step{{Idx: e.S.Int(int64(j))}}}, where)
+				case j-L < len(add):
+					cand = add[j-L]
+				default:
+					cand = e.zeroVal(et)
+				}
+				if v == nil {
+					v = cand
+				} else {
+					v = e.mergeVal(s.Eq(dst.Len, s.Int(int64(L))), cand, v)
+				}
+			}
+			elems[j] = v
+		}
+		at := types.NewArray(et, int64(ncap))
+		id := e.newObj(st, at, &Agg{Typ: at, Elems: elems})
+		return &SliceV{Obj: id, Len: s.Add(dst.Len, s.Int(int64(len(add)))), Cap: ncap, Elem: et}
+	}
+	n := int(dn)
 	if dst.OffT != nil {
 		e.unsupported(st, "append to a slice with symbolic offset at "+where)
 		return &Poison{Why: "append"}
